@@ -12,6 +12,7 @@ CONSTANTS
   Valences = {}
   Scores = {}
   Unscoreds = {}
+  Msgs = {"text"}
   SuppU = {}
   MaxFb = 0
   MaxSupp = 0
